@@ -380,15 +380,17 @@ class TokenAwarePolicy(LoadBalancingPolicy):
                 replicas = self._cluster_metadata.get_replicas(keyspace, routing_key)
                 if self.shuffle_replicas:
                     shuffle(replicas)
+                yielded = []
                 for replica in replicas:
                     if replica.is_up and \
                             child.distance(replica) == HostDistance.LOCAL:
+                        yielded.append(replica)
                         yield replica
 
                 for host in child.make_query_plan(keyspace, query):
-                    # skip if we've already listed this host
-                    if host not in replicas or \
-                            child.distance(host) == HostDistance.REMOTE:
+                    # skip only what we've already listed: a replica that was not
+                    # yielded above (down, remote or ignored) keeps its place in the child's plan
+                    if host not in yielded:
                         yield host
 
     def on_up(self, *args, **kwargs):
